@@ -197,20 +197,29 @@ def install(ex, game, env):
 
     def is_legal_move(ctx, bp, mv):
         nid = node_of(ctx, bp)
-        i = concrete_move(ctx, nid, mv)
-        m = G.nodes[nid]['moves'][i]
         q = mv[8]
         isq = isinstance(q, CI) and q.v == 1
-        legal = z3.And(m['legal'], m['capture']) if isq else m['legal']
-        return Enum(z3.If(legal, z3.BitVecVal(0, 64), z3.BitVecVal(1, 64)), {0: (mv,), 1: (StrV('illegal'),)})
+        legal = False
+        # a move whose identity is symbolic (e.g. read back from the cache) is answered per candidate
+        for c, i in reversed([x for x in G.identify(nid, mv) if x[0] is not False]):
+            m = G.nodes[nid]['moves'][i]
+            li = z3.And(m['legal'], m['capture']) if isq else m['legal']
+            legal = li if c is True else ite(c, li, legal)
+        return Enum(z3.If(zb(legal), z3.BitVecVal(0, 64), z3.BitVecVal(1, 64)), {0: (mv,), 1: (StrV('illegal'),)})
     ex.override('board::Board::is_legal_move', is_legal_move)
 
     def make_move(ctx, bp, mv):
         nid = node_of(ctx, bp)
-        i = concrete_move(ctx, nid, mv)
-        child = G.nodes[nid]['children'][i]
-        ctx.write(bp, G.board_value(child))
-        return UNIT
+        ids = [x for x in G.identify(nid, mv) if x[0] is not False]
+        if len(ids) == 1:
+            ctx.write(bp, G.board_value(G.nodes[nid]['children'][ids[0][1]]))
+            return UNIT
+        # symbolic identity: one path per candidate move
+        def upd(i):
+            def f(st):
+                ctx.ex.store_to(st, bp.root, bp.path, G.board_value(G.nodes[nid]['children'][i]))
+            return f
+        return Fork([(c, UNIT, upd(i)) for c, i in ids])
     ex.override('board::Board::make_move', make_move)
 
     def unmake_move(ctx, bp):
